@@ -25,7 +25,7 @@ var (
 )
 
 type c12cReq struct {
-	kind int // 0 sign+verify, 1 verify a pre-made signature, 2 batch of pre-made signatures
+	kind int     // 0 sign+verify, 1 verify a pre-made signature, 2 batch of pre-made signatures
 	src  *c12Src // the message of kind 0 through one of the three transcript constructors
 	ent  []byte
 	pre  []*sr25519.Signature
